@@ -270,6 +270,18 @@ class C03(Prop):
         for h, c in G.big_header_cuts(rng, tier):
             ops.append("v2 " + G.spec(h[:c]))
             ops.append("auto " + G.spec(h[:c]))
+        # long text values with a multi-byte character at every alignment around the offsets a
+        # "shorten for display" helper would cut at: as raw sections and inside accepted headers
+        for ch in (b"\xc3\xa9", b"\xe2\x82\xac", b"\xf0\x9f\x98\x80"):
+            for cut in (8, 16, 32, 64, 100, 128, 256):
+                for back in range(1, len(ch) + 1):
+                    val = b"a" * (cut - back) + ch * 3 + b"tail"
+                    for kind in (0x02, 0x05, 0x22, 0xE0):
+                        sec = G.tlv_enc(kind, val)
+                        ops.append("tlv " + C.hexs(sec))
+                    hdr = G.header(0x21, 0x11, 12 + len(sec), bytes(range(1, 13)) + sec)
+                    ops.append("v2 " + C.hexs(hdr))
+                    ops.append("auto " + C.hexs(hdr))
         # value lengths at the u16 boundary with the value present: cursor arithmetic in a narrow type overflows only here
         for sec in G.tlv_boundary_sections(rng):
             ops.append("tlv " + G.spec(sec))
@@ -782,6 +794,18 @@ class C12(Prop):
                     for e in ("v1b", "v1s", "auto"):
                         ops.append("%s %s" % (e, C.hexs(m)))
                         self._meta.append(("v1", "limit", l, m))
+                # over the limit in bytes but not in characters (multi-byte text): still HeaderTooLong
+                for ch in (b"\xc3\xa9", b"\xe2\x82\xac", b"\xf0\x9f\x98\x80"):
+                    for total in (108, 109, 110, 112, 140):
+                        k = (total - len(l) - 1) // len(ch)
+                        pad = b"z" * (total - len(l) - 1 - k * len(ch))
+                        if k < 1:
+                            continue
+                        m = l[:-2] + b" " + pad + ch * k + b"\r\n"
+                        if len(m) == total and len(m.decode("utf-8")) <= 107:
+                            for e in ("v1b", "v1s", "auto"):
+                                ops.append("%s %s" % (e, C.hexs(m)))
+                                self._meta.append(("v1", "limit", l, m))
                 m = l[:-2] + b" \xff\xfe\r\n"
                 if len(m) <= 107:   # longer would be two faults at once (limit and encoding): not pinned
                     ops.append("v1b " + C.hexs(m))
